@@ -18,11 +18,24 @@ pub enum Mode {
   MapCopy,
   Map,
   MapCopyRo,
+  /// the same four through the `*_with_path_builder` entry points
+  MapMutPb,
+  MapCopyPb,
+  MapPb,
+  MapCopyRoPb,
 }
 impl Mode {
   pub const ALL: [Mode; 4] = [Mode::MapMut, Mode::MapCopy, Mode::Map, Mode::MapCopyRo];
+  pub const PB: [Mode; 4] = [Mode::MapMutPb, Mode::MapCopyPb, Mode::MapPb, Mode::MapCopyRoPb];
   pub fn writable(self) -> bool {
-    matches!(self, Mode::MapMut | Mode::MapCopy)
+    matches!(self, Mode::MapMut | Mode::MapCopy | Mode::MapMutPb | Mode::MapCopyPb)
+  }
+  /// writes are private to the mapping
+  pub fn cow(self) -> bool {
+    matches!(self, Mode::MapCopy | Mode::MapCopyPb)
+  }
+  pub fn shared(self) -> bool {
+    matches!(self, Mode::MapMut | Mode::MapMutPb)
   }
 }
 
@@ -50,6 +63,10 @@ pub fn open<A: Subject>(p: &PathBuf, o: Options, mode: Mode) -> std::io::Result<
       Mode::MapCopy => o.map_copy::<A, _>(p),
       Mode::Map => o.map::<A, _>(p),
       Mode::MapCopyRo => o.map_copy_read_only::<A, _>(p),
+      Mode::MapMutPb => o.map_mut_with_path_builder::<A, _, ()>(|| Ok(p.clone())).map_err(|e| e.right().unwrap()),
+      Mode::MapCopyPb => o.map_copy_with_path_builder::<A, _, ()>(|| Ok(p.clone())).map_err(|e| e.right().unwrap()),
+      Mode::MapPb => o.map_with_path_builder::<A, _, ()>(|| Ok(p.clone())).map_err(|e| e.right().unwrap()),
+      Mode::MapCopyRoPb => o.map_copy_read_only_with_path_builder::<A, _, ()>(|| Ok(p.clone())).map_err(|e| e.right().unwrap()),
     }
   }
 }
@@ -115,9 +132,9 @@ fn c09_try<A: Subject>(run: &Run, bytes: &[u8], p: &PathBuf, cfg: &Cfg, mode: Mo
         viol(run, "C09", &format!("accepted-mismatch:{}:{:?}", class_what, mode), format!("[{} {:?} {:?} expecting {:?}/magic {}] file ({}) was accepted", A::FLAVOUR, mode, capo, expect_fl, expect_magic, what), case.clone());
       }
       drop(a);
-      if !mode.writable() {
+      if !mode.shared() {
         let after = std::fs::read(p).unwrap();
-        if after[..] != bytes[..] {
+        if after.len() < bytes.len() || after[..bytes.len()] != bytes[..] {
           viol(run, "C09", &format!("non-writing-open-changed-file:{:?}", mode), format!("[{} {:?}] file ({}) changed by a copy-on-write / read-only open", A::FLAVOUR, mode, what), case);
         }
       }
@@ -158,6 +175,17 @@ fn c09_files<A: Subject>(run: &Run, cfg: &Cfg, thorough: bool) {
     for capo in [CapOpt::Absent, CapOpt::Same, CapOpt::Plus64] {
       for (efl, em) in &expects {
         c09_try::<A>(run, &good, &p, cfg, mode, capo, *efl, *em, "valid file", true);
+      }
+    }
+  }
+  // the path-builder entry points behave like their plain twins
+  for mode in Mode::PB {
+    for capo in [CapOpt::Absent, CapOpt::Same] {
+      for (efl, em) in &expects {
+        c09_try::<A>(run, &good, &p, cfg, mode, capo, *efl, *em, "valid file", true);
+        let mut b = good.clone();
+        b[r0 + 2] ^= 0x20;
+        c09_try::<A>(run, &b, &p, cfg, mode, capo, *efl, *em, "id-byte+2 flipped (path builder)", true);
       }
     }
   }
@@ -510,7 +538,7 @@ fn c05_case<A: Subject>(run: &Run, cfg: &Cfg, st: &Start, word: &[Op], cut: usiz
     // continue the history on the reopened arena and on the twin that was never closed
     let mut c2 = *cfg;
     c2.cap = want_cap as u32;
-    let mut r2 = Runner::<A>::from_arena(&c2, Box::new(a2), if mode == Mode::MapMut { Some(path.clone()) } else { None });
+    let mut r2 = Runner::<A>::from_arena(&c2, Box::new(a2), None);
     r2.dead = dead;
     r2.first_alloc_done = true;
     for (m, pat) in &lives {
@@ -553,6 +581,13 @@ fn c05_case<A: Subject>(run: &Run, cfg: &Cfg, st: &Start, word: &[Op], cut: usiz
     }
     let (a2, _) = r2.into_arena();
     drop(a2);
+    if mode.cow() {
+      // a copy-on-write session is private: the bytes that were in the file stay as they were
+      let after = std::fs::read(&path).unwrap();
+      if after.len() < on_disk.len() || after[..on_disk.len()] != on_disk[..] {
+        bad("copy-on-write-session-wrote-file", "the file content changed during a copy-on-write session".into());
+      }
+    }
   } else {
     match a2.alloc_bytes(1) {
       Err(Error::ReadOnly) => {}
@@ -587,14 +622,15 @@ fn c05_cell<A: Subject>(run: &Run, cfg: &Cfg, alphabet: &[Op], depth: usize, tho
         let h = (hash_of(&(&idx, cut)) % 24) as usize;
         let variants: Vec<(Mode, CapOpt, bool, bool)> = if thorough {
           let mut v = vec![];
-          for m in Mode::ALL {
+          for m in Mode::ALL.iter().chain(Mode::PB.iter()) {
             for c in [CapOpt::Same, CapOpt::Absent, CapOpt::Plus64] {
-              v.push((m, c, (h + v.len()) % 2 == 0, (h + v.len()) % 3 == 0));
+              v.push((*m, c, (h + v.len()) % 2 == 0, (h + v.len()) % 3 == 0));
             }
           }
           v
         } else {
-          vec![(Mode::MapMut, [CapOpt::Same, CapOpt::Absent, CapOpt::Plus64][h % 3], h % 2 == 0, h % 5 == 0), (Mode::ALL[1 + h % 3], [CapOpt::Same, CapOpt::Absent, CapOpt::Plus64][(h / 3) % 3], h % 2 == 1, false)]
+          let all8: Vec<Mode> = Mode::ALL.iter().chain(Mode::PB.iter()).cloned().collect();
+          vec![(if h % 4 == 0 { Mode::MapMutPb } else { Mode::MapMut }, [CapOpt::Same, CapOpt::Absent, CapOpt::Plus64][h % 3], h % 2 == 0, h % 5 == 0), (all8[1 + h % 7], [CapOpt::Same, CapOpt::Absent, CapOpt::Plus64][(h / 3) % 3], h % 2 == 1, false)]
         };
         for (mode, capo, flush, create) in variants {
           if !c05_case::<A>(run, cfg, st, &word, cut, mode, capo, flush, create) {
